@@ -8,7 +8,8 @@ Every `*_expect` function returns the list of specification codes the rule must 
 value (order-free; callers compare sorted lists), or `None` where the texts above do not decide the case
 ("unspecified": the harness then only requires that the rule returns a list of issues without raising).
 
-Hash-free (lists, `in` on lists, `ord` arithmetic) so that CrossHair executes it symbolically.
+Hash-free on symbolic values (lists, `in` on lists / on concrete sets, `ord` arithmetic) so that CrossHair
+executes it symbolically.
 Characters are compared through `ord()`: `<=` on symbolic one-character strings is ~40x slower (measured).
 """
 
@@ -330,43 +331,41 @@ def hed_id_expect(body, old_value, id_range):
 
 
 # --------------------------------------------------------------------------------------------- character classes
-def _name_char(c):
-    """'name' = letters, digits, hyphen, period, underscore (+ non-ASCII)"""
-    return (48 <= c <= 57) or (65 <= c <= 90) or (97 <= c <= 122) or c == 45 or c == 46 or c == 95
+# Membership of one character in a *concrete* set: CrossHair turns `ch in <set>` into a scan without hashing
+# (one solver question with vp/chset.py); comparing code points range by range would fork ~10x per character.
+_LETTERS = "abcdefghijklmnopqrstuvwxyz"
+# 'name' = letters, digits, hyphen, period, underscore (+ non-ASCII)
+NAME_CHARS = set(_LETTERS + _LETTERS.upper() + "0123456789" + "-._")
+# description text: printable ASCII except [ ] { } (comma allowed in descriptions) (+ non-ASCII)
+DESCRIPTION_CHARS = set(chr(c) for c in range(32, 127)) - set("[]{}")
+# 'nonascii' = 'all other printable unicode characters': decided here only for the printable letters and signs
+# U+00A1..U+017F (U+00AD is a format character); other code points above 127 are not decided.
+DECIDED_NONASCII = set(chr(c) for c in range(0xA1, 0x180) if c != 0xAD)
 
 
-def _text_or_comma_char(c):
-    """description text: printable ASCII except [ ] { } (comma allowed in descriptions) (+ non-ASCII)"""
-    return 32 <= c <= 126 and not (c == 91 or c == 93 or c == 123 or c == 125)
-
-
-def _nonascii_verdict(c):
-    """'nonascii' = 'all other printable unicode characters': decided here only for the printable letters and
-    signs U+00A1..U+017F (U+00AD is a format character); other code points above 127 are not decided."""
-    if 0xA1 <= c <= 0x17F and c != 0xAD:
-        return True
-    return None
-
-
-def problem_positions(text, ascii_ok):
+def problem_positions(text, ascii_allowed):
     """indexes of the characters of text that are not allowed; None if some character is not decided"""
     out = []
     i = 0
     for ch in text:
-        c = ord(ch)
-        if c > 127:
-            if _nonascii_verdict(c) is None:
-                return None
-        elif not ascii_ok(c):
+        if ch in DECIDED_NONASCII:
+            pass
+        elif ord(ch) > 127:
+            return None
+        elif ch not in ascii_allowed:
             out.append(i)
         i += 1
     return out
 
 
-def term_problem_positions(term, extra_ascii):
-    """extra_ascii: code points added by the entry's own allowedCharacter groups"""
-    return problem_positions(term, lambda c: _name_char(c) or c in extra_ascii)
+def term_allowed(extra_chars):
+    """extra_chars: characters added by the entry's own allowedCharacter groups"""
+    return NAME_CHARS | set(extra_chars)
+
+
+def term_problem_positions(term, allowed):
+    return problem_positions(term, allowed)
 
 
 def description_problem_positions(desc):
-    return problem_positions(desc, _text_or_comma_char)
+    return problem_positions(desc, DESCRIPTION_CHARS)
